@@ -838,8 +838,10 @@ class ArgumentParser(ParserDeprecations, ActionsContainer, ArgumentLinking, argp
                 val = subcfg[key]
                 default = subdefaults[key]
                 class_object_val = None
+                same_class = True
                 if is_subclass_spec(val):
-                    if val["class_path"] != default.get("class_path"):
+                    same_class = isinstance(default, dict) and val["class_path"] == default.get("class_path")
+                    if not same_class:
                         with parser_context(parent_parser=self):
                             parser = ActionTypeHint.get_class_parser(val["class_path"])
                         default = {"init_args": parser.get_defaults().as_dict()}
@@ -847,7 +849,10 @@ class ArgumentParser(ParserDeprecations, ActionsContainer, ArgumentLinking, argp
                     val = val.get("init_args")
                     default = default.get("init_args")
                 if val == default:
-                    del subcfg[key]
+                    if same_class:
+                        del subcfg[key]
+                    else:
+                        class_object_val.pop("init_args", None)
                 elif isinstance(val, dict) and isinstance(default, dict):
                     self._dump_delete_default_entries(val, default)
                     if class_object_val and class_object_val.get("init_args") == {}:
